@@ -1,6 +1,7 @@
 ---------------------------- MODULE SingleLaneTrace ----------------------------
 (* Validates recorded executions of the REAL mpservice._queues.SingleLane (mbt/bind/singlelane.py: one writer and   *)
 (* one reader thread under detsched, line mode on _queues.py) against SingleLane.                                   *)
+(* Silent as well: the lock-free look at `_closed` with which a call begins (`Begin`).                               *)
 (* Logged: every call and its outcome, every acquire / release of the mutex, entering and leaving Condition.wait    *)
 (* (with what it returned), every append / popleft of the deque (with the item and the new length), every notify    *)
 (* (with the number of waiters it released).  Silent: the pure test of the queue (`Test`) and the moment a blocked   *)
@@ -11,7 +12,7 @@ TraceLog == JsonDeserialize(IOEnv.TRACE_FILE)
 VARIABLES tid, l
 tvars == <<vars, tid, l>>
 
-ParamOf(h) == [cap |-> h.cap, ops |-> h.ops]
+ParamOf(h) == [cap |-> h.cap, ops |-> h.ops, mayclose |-> h.mayclose]
 Evs == TraceLog[tid].ev
 E == Evs[l]
 Is(name) == l <= Len(Evs) /\ E.ev = name
@@ -24,7 +25,7 @@ TraceInit ==
      /\ tid = t /\ l = 1 /\ InitWith(ParamOf(TraceLog[t].p))
      /\ TLCSet(t, <<1, "init", "none">>)
 
-TCall   == Is("Call") /\ Begin(E.t) /\ Mode(E.t) = E.mode /\ Adv
+TCall   == Is("Call") /\ Start(E.t) /\ Mode(E.t) = E.mode /\ Adv
 TLock   == Is("Lock") /\ (Lock(E.t) \/ Reacq(E.t)) /\ Adv
 TUnlock == Is("Unlock") /\ (WaitRelease(E.t) \/ Unlock(E.t)) /\ Adv
 TWait   == Is("Wait") /\ pc[E.t] = "wait" /\ Same /\ Adv
@@ -40,11 +41,12 @@ TRet    == /\ Is("Ret") /\ Ret(E.t)
 TStuck  == /\ Is("Stuck") /\ (\A t \in Threads : ~ENABLED Step(t))
            /\ \A t \in Threads : (pc[t] = "waiting") = (t \in {E.blocked[i] : i \in 1..Len(E.blocked)})
            /\ Same /\ Adv
+TClose == Is("Close") /\ Close /\ Adv
 TAllDone == Is("AllDone") /\ (\A t \in Threads : pc[t] = "done") /\ Len(q) = E.qlen /\ mutex = 0 /\ Same /\ Adv
 
-TSilent == (\E t \in Threads : Test(t) \/ Woken(t) \/ Timeout(t)) /\ Silent
+TSilent == (\E t \in Threads : Begin(t) \/ Test(t) \/ Woken(t) \/ Timeout(t)) /\ Silent
 
-TraceNext == TCall \/ TLock \/ TUnlock \/ TWait \/ TWoke \/ TPut \/ TGet \/ TNotify \/ TRet \/ TStuck \/ TAllDone \/ TSilent
+TraceNext == TClose \/ TCall \/ TLock \/ TUnlock \/ TWait \/ TWoke \/ TPut \/ TGet \/ TNotify \/ TRet \/ TStuck \/ TAllDone \/ TSilent
 TraceSpec == TraceInit /\ [][TraceNext]_tvars
 
 FailedInv ==
